@@ -48,6 +48,7 @@ type Sched struct {
 	threads    []*thread
 	current    int
 	MapChoices bool // register map-iteration order as choice points
+	SiteOK     func(site string, n int) bool // which map-range sites are choice points (nil = all)
 	Diverged   string
 	Deadlock   bool
 	Races      map[string]Race
@@ -276,8 +277,27 @@ func Order[K comparable, V any](site string, m map[K]V) []K {
 	if s == nil || !s.MapChoices || len(keys) < 2 {
 		return keys
 	}
+	if s.SiteOK != nil && !s.SiteOK(site, len(keys)) {
+		return keys
+	}
 	s.mu.Lock()
 	defer s.mu.Unlock()
+	if len(keys) > 4 {
+		// large maps: one choice among the 2n rotations/reversed rotations instead of n! orders
+		n := len(keys)
+		c := s.choose(2 * n)
+		s.Points = append(s.Points, Point{Kind: "map", Site: site, Arity: 2 * n, Choice: c, Thread: s.current})
+		out := make([]K, 0, n)
+		if c < n {
+			out = append(append(out, keys[c:]...), keys[:c]...)
+		} else {
+			r := c - n
+			for i := 0; i < n; i++ {
+				out = append(out, keys[(r+n-i)%n])
+			}
+		}
+		return out
+	}
 	out := make([]K, 0, len(keys))
 	rest := keys
 	for len(rest) > 1 {
